@@ -98,7 +98,7 @@ def run(tier, seed):
     wd = common.tmpdir("c16_")
     lits = sr.source_literals()
     cases, coq, violations, samples, seen = [], [], [], [], set()
-    dist = {"rwmh": 0, "hmc": 0, "clamped_runs": 0, "nan_rates": 0, "inf_rates": 0, "interrupted": 0}
+    dist = {"rwmh": 0, "hmc": 0, "clamped_runs": 0, "nan_rates": 0, "inf_rates": 0, "interrupted": 0, "sampler_reused": 0}
     try:
         for i in range(n):
             cfg = sr.gen_run(rnd, tune=True, maxP=(12 if tier == "quick" else 40),
@@ -117,7 +117,17 @@ def run(tier, seed):
                     target.fault = fault
                 completed = stop_at
                 dist["interrupted"] += 1
-            r = sr.run_impl(cfg, wd, sampler_hook=hook)
+            if not interrupted and i % 4 == 1:
+                # the sampler object has made an autotuned run before: step size, histories and weights start afresh
+                cfg0 = dict(cfg, P=cfg["t"] * rnd.randint(2, 4), stepsize=cfg["stepsize"] * 2.0)
+                r0 = sr.run_impl(cfg0, wd, tag="first")
+                n0 = len(r0.snaps)
+                r = sr.run_impl(cfg, wd, reuse=r0)
+                r.snaps = r.snaps[n0:]
+                cfg["after_earlier_run_of_the_same_sampler"] = cfg0["P"]
+                dist["sampler_reused"] += 1
+            else:
+                r = sr.run_impl(cfg, wd, sampler_hook=hook)
             cases.append((cfg, r, interrupted))
             for key, what in spec_oracle(cfg, r, completed):
                 violations.append(Violation(key + ("-interrupted" if interrupted and key == "history-short" else ""),
@@ -155,7 +165,7 @@ def run(tier, seed):
     return {
         "evaluations": n + lrn, "distinct_nontrivial": len(seen),
         "rule": "seeded autotuned sample() runs (RWMH scalar/per-dimension, HMC lf/3s/4s) on hash targets producing acceptance "
-                "probabilities incl. NaN, inf, 0; every 7th run is interrupted inside a proposal >= 1; 18 learning-rate guard calls; "
+                "probabilities incl. NaN, inf, 0; every 7th run is interrupted inside a proposal >= 1, every 4th runs on a sampler object that already made an autotuned run; 18 learning-rate guard calls; "
                 "non-trivial = history containing a NaN/inf rate and a rate strictly inside (0,1)",
         "samples": samples, "violations": violations,
         "traces_validated_against_impl": len(idx) - len(bad),
